@@ -373,8 +373,7 @@ class Impl:
             if c['formula'] and not data_sheet:
                 ws[addr(i)] = formula_text(c['formula'][0], c['formula'][1], wb.ranges)
             elif v is not None and (data_sheet or not c['formula']):
-                v = Fr(v)
-                ws[addr(i)] = v.numerator if v.denominator == 1 else float(v)
+                ws[addr(i)] = float(v)     # one numeric type everywhere: set_value also compares types
         o.calculation = self.CalcProperties(iterate=iterate, iterateCount=100, iterateDelta=0.001)
         return o
 
@@ -427,7 +426,7 @@ class Impl:
                 else:
                     v = o[2]
                     if v is not None:
-                        v = v.numerator if v.denominator == 1 else float(v)
+                        v = float(v)
                     comp.set_value(full(o[1]), v)
                     out.append(dict(kind='set', state=self.snapshot(wb, comp)))
             except AssertionError:
@@ -463,7 +462,7 @@ ANCHORS = {
                          '_CellBase.close_enough', '_CellBase.needs_calc', '_CycleCell', '_Cell.__init__'],
     'excelutil.py': ['_IterativeEvalTracker'],
 }
-ANCHOR_DIGEST = 'af124e7e896ee4e2'    # AST digest of the anchored functions when Model/Iter.v was transcribed
+ANCHOR_DIGEST = '1eda03fe8caaa485'    # AST digest of the anchored functions when Model/Iter.v was transcribed
 
 
 def anchor_digest(repo):
